@@ -45,17 +45,60 @@ func (m *modSet) addAll(o *modSet) {
 
 func (w *World) modsOfNode(fx *Fx, n ast.Node) *modSet {
 	ms := newModSet()
-	w.collectMods(fx.pkg, fx.c, n, ms, map[string]bool{})
+	var callees []string
+	w.collectMods(fx.pkg, fx.c, n, ms, &callees)
+	for _, k := range callees {
+		ms.addAll(w.modsOfFunc(k, fx.c, nil))
+	}
 	return ms
 }
 
-// modsOfFunc: summary for a function key (cached); cycles are cut conservatively by the visiting set.
+// modsOfFunc: transitive summary for a function key (cached).  Direct effects of every function are
+// collected once (directMods); the summary is the union over the functions reachable in the call graph,
+// where functions with an explicit frame (modifies clause / assumed contract) are leaves.
 func (w *World) modsOfFunc(key string, c *Ctx, visiting map[string]bool) *modSet {
 	if ms, ok := w.mods[key]; ok {
 		return ms
 	}
+	out := newModSet()
+	seen := map[string]bool{}
+	stack := []string{key}
+	for len(stack) > 0 {
+		k := stack[len(stack)-1]
+		stack = stack[:len(stack)-1]
+		if seen[k] {
+			continue
+		}
+		seen[k] = true
+		if done, ok := w.mods[k]; ok && k != key {
+			out.addAll(done)
+			continue
+		}
+		d := w.directMods(k)
+		out.addAll(d.ms)
+		stack = append(stack, d.callees...)
+	}
+	out.vars = map[types.Object]bool{}
+	w.mods[key] = out
+	return out
+}
+
+type directSummary struct {
+	ms      *modSet
+	callees []string
+}
+
+func (w *World) directMods(key string) *directSummary {
+	if w.direct == nil {
+		w.direct = map[string]*directSummary{}
+	}
+	if d, ok := w.direct[key]; ok {
+		return d
+	}
+	d := &directSummary{ms: newModSet()}
+	w.direct[key] = d
 	if sp, ok := w.Specs[key]; ok && (sp.ModSet || sp.Assumed) {
-		ms := newModSet()
+		ms := d.ms
 		for _, m := range sp.Modifies {
 			if m == "*" {
 				ms.all = true
@@ -72,14 +115,18 @@ func (w *World) modsOfFunc(key string, c *Ctx, visiting map[string]bool) *modSet
 				ms.emits = true
 			}
 			if !sp.Assumed && sp.Flags["emits"] == "" {
-				// repo function with explicit frame: events inferred from body
+				// repo function with explicit frame: events and allocation inferred from the body
 				if fi, ok := w.Funcs[key]; ok {
 					b := newModSet()
-					visiting[key] = true
-					w.collectMods(fi.Pkg, c, fi.Body, b, visiting)
-					delete(visiting, key)
-					ms.emits = ms.emits || b.emits
-					ms.allocs = ms.allocs || b.allocs
+					var callees []string
+					w.collectMods(fi.Pkg, nil, fi.Body, b, &callees)
+					sub := newModSet()
+					sub.addAll(b)
+					for _, ck := range callees {
+						sub.addAll(w.modsOfFunc(ck, nil, nil))
+					}
+					ms.emits = ms.emits || sub.emits
+					ms.allocs = ms.allocs || sub.allocs
 				}
 			}
 		default:
@@ -88,31 +135,20 @@ func (w *World) modsOfFunc(key string, c *Ctx, visiting map[string]bool) *modSet
 		if sp.Flags["allocs"] != "" {
 			ms.allocs = true
 		}
-		w.mods[key] = ms
-		return ms
+		return d
 	}
 	fi, ok := w.Funcs[key]
 	if !ok {
 		// external function without a contract: assumed not to touch the heaps under analysis
-		return newModSet()
+		return d
 	}
-	if visiting[key] {
-		return newModSet() // recursion: contributes what the outer visit collects
-	}
-	visiting[key] = true
-	ms := newModSet()
-	w.collectMods(fi.Pkg, c, fi.Body, ms, visiting)
-	delete(visiting, key)
-	ms.vars = map[types.Object]bool{}
-	if len(visiting) == 0 {
-		w.mods[key] = ms
-	}
-	return ms
+	w.collectMods(fi.Pkg, nil, fi.Body, d.ms, &d.callees)
+	return d
 }
 
 func (s *FuncSpec) Emits() []*Clause { return s.EmitsC }
 
-func (w *World) collectMods(pkg *packages.Package, c *Ctx, n ast.Node, ms *modSet, visiting map[string]bool) {
+func (w *World) collectMods(pkg *packages.Package, c *Ctx, n ast.Node, ms *modSet, callees *[]string) {
 	info := pkg.TypesInfo
 	markLHS := func(e ast.Expr) {
 		w.markStore(pkg, c, e, ms)
@@ -186,7 +222,7 @@ func (w *World) collectMods(pkg *packages.Package, c *Ctx, n ast.Node, ms *modSe
 				}
 			}
 		case *ast.CallExpr:
-			w.callMods(pkg, c, s, ms, visiting)
+			w.callMods(pkg, c, s, ms, callees)
 		}
 		return true
 	})
@@ -289,7 +325,14 @@ func calleeOf(info *types.Info, call *ast.CallExpr) *types.Func {
 	return nil
 }
 
-func (w *World) callMods(pkg *packages.Package, c *Ctx, call *ast.CallExpr, ms *modSet, visiting map[string]bool) {
+func (w *World) callMods(pkg *packages.Package, c *Ctx, call *ast.CallExpr, ms *modSet, callees *[]string) {
+	note := func(k string) {
+		if callees != nil {
+			*callees = append(*callees, k)
+		} else {
+			ms.addAll(w.modsOfFunc(k, c, nil))
+		}
+	}
 	info := pkg.TypesInfo
 	if tv, ok := info.Types[call.Fun]; ok && tv.IsType() {
 		return // conversion
@@ -355,7 +398,7 @@ func (w *World) callMods(pkg *packages.Package, c *Ctx, call *ast.CallExpr, ms *
 			}
 			lt, _ := fi.Pkg.TypesInfo.TypeOf(fi.Lit).(*types.Signature)
 			if ft != nil && lt != nil && types.Identical(ft, lt) {
-				ms.addAll(w.modsOfFunc(fi.Key, c, visiting))
+				note(fi.Key)
 			}
 		}
 		return
@@ -395,7 +438,7 @@ func (w *World) callMods(pkg *packages.Package, c *Ctx, call *ast.CallExpr, ms *
 		if _, isIface := types.Unalias(r.Type()).Underlying().(*types.Interface); isIface {
 			if sp, ok := w.Specs[key]; ok {
 				_ = sp
-				ms.addAll(w.modsOfFunc(key, c, visiting))
+				note(key)
 				return
 			}
 			// union over implementations in the loaded packages
@@ -409,7 +452,7 @@ func (w *World) callMods(pkg *packages.Package, c *Ctx, call *ast.CallExpr, ms *
 					continue
 				}
 				if types.Implements(rs.Type(), r.Type().Underlying().(*types.Interface)) {
-					ms.addAll(w.modsOfFunc(fi.Key, c, visiting))
+					note(fi.Key)
 					found = true
 				}
 			}
@@ -419,5 +462,5 @@ func (w *World) callMods(pkg *packages.Package, c *Ctx, call *ast.CallExpr, ms *
 			return
 		}
 	}
-	ms.addAll(w.modsOfFunc(key, c, visiting))
+	note(key)
 }
